@@ -393,77 +393,199 @@ func malFile(path string) {
 	defer w.Flush()
 	self, _ := os.Executable()
 	memLimitKB := 1 << 20 // 1 GiB of address space beyond what the runtime reserves is plenty for every honest decode
-	next := 0
-	for next < len(cases) {
-		var in bytes.Buffer
-		for _, c := range cases[next:] {
-			fmt.Fprintf(&in, "%s %s %s\n", c[0], c[1], c[2])
+	all := cases
+	const chunk = 4000
+	base := 0
+	for base < len(all) {
+		end := base + chunk
+		if end > len(all) {
+			end = len(all)
 		}
-		cmd := exec.Command("sh", "-c", fmt.Sprintf("ulimit -v %d; exec %q -child", 4*memLimitKB, self))
-		cmd.Env = append(os.Environ(), "GOMEMLIMIT=512MiB", "GOTRACEBACK=none")
-		cmd.Stdin = &in
-		var stdout, stderr bytes.Buffer
-		cmd.Stdout, cmd.Stderr = &stdout, &stderr
-		done := make(chan error, 1)
-		if err := cmd.Start(); err != nil {
-			fmt.Fprintln(os.Stderr, "cannot start child:", err)
-			os.Exit(2)
-		}
-		go func() { done <- cmd.Wait() }()
-		// budget: 20 s per batch of progress; a child that stops making progress is killed
-		timedOut := false
-		select {
-		case <-done:
-		case <-time.After(time.Duration(20+len(cases[next:])/50) * time.Second):
-			timedOut = true
-			cmd.Process.Kill()
-			<-done
-		}
-		started, finished := -1, -1
-		for _, line := range strings.Split(stdout.String(), "\n") {
-			p := strings.Fields(line)
-			if len(p) >= 2 && p[0] == "start" {
-				started, _ = strconv.Atoi(p[1])
+		cases := all[base:end]
+		base = end
+		next := 0
+		for next < len(cases) {
+			var in bytes.Buffer
+			for _, c := range cases[next:] {
+				fmt.Fprintf(&in, "%s %s %s\n", c[0], c[1], c[2])
 			}
-			if len(p) >= 4 && p[0] == "done" {
-				k, _ := strconv.Atoi(p[1])
-				finished = k
-				c := cases[next+k]
-				alloc, _ := strconv.ParseInt(p[3], 10, 64)
-				out := p[2]
-				// the allocation bound of C20: c·(frame bytes) + k with c = 256 (largest Go element per wire byte), k = 64 KiB
-				if frameLen := int64(len(c[2]) / 2); alloc > 256*frameLen+65536 {
-					out = "oom" // ballooned without dying
+			cmd := exec.Command("sh", "-c", fmt.Sprintf("ulimit -v %d; exec %q -child", 4*memLimitKB, self))
+			cmd.Env = append(os.Environ(), "GOMEMLIMIT=512MiB", "GOTRACEBACK=none")
+			cmd.Stdin = &in
+			var stdout, stderr bytes.Buffer
+			cmd.Stdout, cmd.Stderr = &stdout, &stderr
+			done := make(chan error, 1)
+			if err := cmd.Start(); err != nil {
+				fmt.Fprintln(os.Stderr, "cannot start child:", err)
+				os.Exit(2)
+			}
+			go func() { done <- cmd.Wait() }()
+			// budget: 20 s per batch of progress; a child that stops making progress is killed
+			timedOut := false
+			select {
+			case <-done:
+			case <-time.After(15 * time.Second):
+				timedOut = true
+				cmd.Process.Kill()
+				<-done
+			}
+			started, finished := -1, -1
+			for _, line := range strings.Split(stdout.String(), "\n") {
+				p := strings.Fields(line)
+				if len(p) >= 2 && p[0] == "start" {
+					started, _ = strconv.Atoi(p[1])
+				}
+				if len(p) >= 4 && p[0] == "done" {
+					k, _ := strconv.Atoi(p[1])
+					finished = k
+					c := cases[next+k]
+					alloc, _ := strconv.ParseInt(p[3], 10, 64)
+					out := p[2]
+					// the allocation bound of C20: c·(frame bytes) + k with c = 256 (largest Go element per wire byte), k = 1 MiB (page buffers of record sets)
+					if frameLen := int64(len(c[2]) / 2); alloc > 256*frameLen+(1<<20) {
+						out = "oom" // ballooned without dying
+					}
+					fmt.Fprintf(w, "mal %s %s %s\t%s\n", c[0], c[1], c[2], out)
+				}
+			}
+			if started > finished { // the child died or hung inside case `started`
+				c := cases[next+started]
+				out := "panic"
+				switch {
+				case timedOut:
+					out = "timeout"
+				case strings.Contains(stderr.String(), "out of memory") || strings.Contains(stderr.String(), "cannot allocate"):
+					out = "oom"
 				}
 				fmt.Fprintf(w, "mal %s %s %s\t%s\n", c[0], c[1], c[2], out)
+				next += started + 1
+				continue
+			}
+			next += finished + 1
+			if finished < 0 {
+				break
 			}
 		}
-		if started > finished { // the child died or hung inside case `started`
-			c := cases[next+started]
-			out := "panic"
-			switch {
-			case timedOut:
-				out = "timeout"
-			case strings.Contains(stderr.String(), "out of memory") || strings.Contains(stderr.String(), "cannot allocate"):
-				out = "oom"
-			}
-			fmt.Fprintf(w, "mal %s %s %s\t%s\n", c[0], c[1], c[2], out)
-			next += started + 1
+	}
+}
+
+// ---- C20: generator of malformed frames
+
+func put32(b []byte, off int, v uint32) {
+	b[off], b[off+1], b[off+2], b[off+3] = byte(v>>24), byte(v>>16), byte(v>>8), byte(v)
+}
+
+// malgen prints `<i> <ver> <hex>`: well-formed response frames (encoded by the real code) in which ONE
+// position is overwritten as if it were an int32 / int16 / varint length or count field holding
+// {-1, min, max, rest+1, orig±1, 0} resp. varints 2^31-1, 2^63, 2^64-1 and an over-long varint.
+// Positions that are not length fields get mutated too (the decoder must survive those as well).
+func malgen() {
+	r := gen.New()
+	w := bufio.NewWriter(os.Stdout)
+	defer w.Flush()
+	emit := func(i int, ver int16, b []byte) { fmt.Fprintf(w, "%d %d %s\n", i, ver, hex.EncodeToString(b)) }
+	varints := [][]byte{
+		{0xff, 0xff, 0xff, 0xff, 0x07},                                     // 2^31-1
+		{0x80, 0x80, 0x80, 0x80, 0x08},                                     // 2^31
+		{0x80, 0x80, 0x80, 0x80, 0x80, 0x80, 0x80, 0x80, 0x80, 0x01},       // 2^63
+		{0xff, 0xff, 0xff, 0xff, 0xff, 0xff, 0xff, 0xff, 0xff, 0x01},       // 2^64-1
+		{0xff, 0xff, 0xff, 0xff, 0xff, 0xff, 0xff, 0xff, 0xff, 0xff, 0xff}, // never terminates within 11 bytes
+		{0x00}, {0x01}, {0x02},
+	}
+	for i, m := range msgs.All {
+		if m.IsRequest {
 			continue
 		}
-		next += finished + 1
-		if finished < 0 {
-			break
+		lo, hi := versions(m)
+		for ver := lo; ver <= hi; ver++ {
+			modes := []int{1}
+			if gen.Thorough() {
+				modes = []int{1, 2, 2}
+			}
+			for _, mode := range modes {
+				f := &filler{r: r, payloads: msgs.Payloads{}, version: ver, mode: mode}
+				msg := m.New()
+				f.fill(reflect.ValueOf(msg).Elem(), 0)
+				frame, err := encodeReal(m, ver, 7, "", msg)
+				if err != nil || len(frame) > 4096 {
+					continue
+				}
+				emit(i, ver, frame) // the well-formed frame itself
+				// quick: the first body offsets (where the top-level counts live) + a random sample; thorough: all
+				var offs []int
+				if gen.Thorough() {
+					for off := 0; off < len(frame); off++ {
+						offs = append(offs, off)
+					}
+				} else {
+					offs = append(offs, 0)
+					for off := 8; off < len(frame) && off < 14; off++ {
+						offs = append(offs, off)
+					}
+					for k := 0; k < 6 && len(frame) > 14; k++ {
+						offs = append(offs, 14+r.Intn(len(frame)-14))
+					}
+				}
+				for _, off := range offs {
+					if off+4 <= len(frame) {
+						orig := uint32(frame[off])<<24 | uint32(frame[off+1])<<16 | uint32(frame[off+2])<<8 | uint32(frame[off+3])
+						rest := uint32(len(frame) - off - 4)
+						vals := []uint32{0xffffffff, 0x80000000, 0x7fffffff, rest + 1, orig + 1, orig - 1, 0, 0xfffffffe}
+						if !gen.Thorough() {
+							vals = vals[:4]
+						}
+						for _, v := range vals {
+							if v == orig {
+								continue
+							}
+							b := append([]byte(nil), frame...)
+							put32(b, off, v)
+							emit(i, ver, b)
+						}
+					}
+					if off+2 <= len(frame) && off >= 8 {
+						v16 := []uint16{0xffff, 0x7fff, 0x8000, uint16(len(frame)-off-2) + 1}
+						if !gen.Thorough() {
+							v16 = v16[:2]
+						}
+						for _, v := range v16 {
+							b := append([]byte(nil), frame...)
+							b[off], b[off+1] = byte(v>>8), byte(v)
+							emit(i, ver, b)
+						}
+					}
+					if off >= 8 {
+						vs := varints
+						if !gen.Thorough() {
+							vs = varints[:5]
+						}
+						for _, vi := range vs {
+							// replace one byte by a varint (the frame grows; its size prefix is kept consistent so
+							// that exactly one field lies)
+							b := append(append(append([]byte(nil), frame[:off]...), vi...), frame[off+1:]...)
+							put32(b, 0, uint32(len(b)-4))
+							emit(i, ver, b)
+						}
+					}
+				}
+				// truncated announcements: a huge frame size with the body cut short
+				b := append([]byte(nil), frame...)
+				put32(b, 0, 0x7fffffff)
+				emit(i, ver, b)
+			}
 		}
 	}
 }
 
 func main() {
+	malgenF := flag.Bool("malgen", false, "print malformed response frames (C20)")
 	decF := flag.String("dec", "", "file of `<i> <ver> <hex>` frames to decode with the real code")
 	malF := flag.String("mal", "", "file of `<i> <ver> <hex>` malformed frames to decode in child processes")
 	childF := flag.Bool("child", false, "internal")
 	flag.Parse()
 	switch {
+	case *malgenF:
+		malgen()
 	case *childF:
 		child()
 	case *decF != "":
